@@ -282,3 +282,81 @@ def item_spans(data):
         if depth == 0:
             spans.append((here, pos))
     return spans
+
+
+# ---------------------------------------------------------------- Annex F examples
+def _slot(v, slots):
+    if isinstance(v, str) and v.startswith("$"):
+        return slots[v[1:]]
+    return v
+
+
+def model_from_json(spec, slots):
+    """value spec of annexf.json -> neutral model, `$x` replaced by slots[x]"""
+    if spec is None:
+        return None
+    (k, v), = spec.items()
+    if k == "seq":
+        return ("seq", [(n, model_from_json(c, slots)) for n, c in v])
+    if k == "choice":
+        return ("choice", v[0], model_from_json(v[1], slots), list(v[2]))
+    if k == "list":
+        return ("list", [model_from_json(c, slots) for c in v])
+    if k == "any":
+        return ("any", [model_from_json(c, slots) for c in v])
+    if k == "open" or k == "close":
+        return (k, v)
+    if k == "unsigned":
+        return ("atom", "Unsigned", _slot(v, slots), None)
+    if k == "integer":
+        return ("atom", "Integer", _slot(v, slots), None)
+    if k == "enum":
+        return ("atom", "Enumerated", v[0], v[1])
+    if k == "oid":
+        inst = _slot(v[2], slots)
+        return ("atom", "ObjectIdentifier", (v[0], inst), (v[1], inst))
+    if k == "real":
+        return ("atom", "Real", float(v), None)
+    if k == "double":
+        return ("atom", "Double", float(v), None)
+    if k == "bool":
+        return ("atom", "Boolean", bool(v), None)
+    if k == "chars":
+        return ("atom", "CharacterString", _slot(v, slots), None)
+    if k == "octets":
+        v = _slot(v, slots)
+        return ("atom", "OctetString", bytes.fromhex(v) if isinstance(v, str) else v, None)
+    if k == "bits":
+        return ("atom", "BitString", list(v), None)
+    if k in ("date", "time"):
+        return ("atom", "Date" if k == "date" else "Time", tuple(_slot(v, slots)), None)
+    if k == "null":
+        return ("atom", "Null", (), None)
+    raise AssertionError(k)
+
+
+def body_from_json(body, slots):
+    """the example's octets for the given slot values -> list of ints"""
+    out = []
+    for part in body:
+        if isinstance(part, str):
+            out += list(bytes.fromhex(part))
+        elif "u" in part:
+            out += R.be(_slot(part["u"], slots), part["n"])
+        elif "oid" in part:
+            out += R.be(part["oid"] * 4194304 + _slot(part["inst"], slots), 4)
+        elif "chars" in part:
+            out += [ord(c) for c in _slot(part["chars"], slots)]
+        elif "quad" in part:
+            out += list(_slot(part["quad"], slots))
+        else:
+            raise AssertionError(part)
+    return out
+
+
+def published_slots(ex):
+    out = {}
+    for name, s in ex["slots"].items():
+        v = s["published"]
+        out[name] = tuple(v) if s["kind"] == "quad" else v
+    return out
